@@ -15,6 +15,7 @@ import OciModel.Driver.Conc
 import OciModel.Driver.BlobReader
 import OciModel.Driver.Unify
 import OciModel.Driver.UnifyConc
+import OciModel.Driver.Auth
 
 structure DState where
   scopes : OciModel.Driver.Scope.Regs := []
@@ -24,6 +25,7 @@ structure DState where
   wrap : OciModel.Driver.WrapRO.WrapState := {}
   authfile : OciModel.Driver.AuthFile.St := {}
   uni : OciModel.Driver.Unify.St := {}
+  auth : OciModel.Driver.Auth.St := {}
 
 /-- One line in, one line out. The first token names the engine. -/
 def step (st : DState) (line : String) : DState × String :=
@@ -35,6 +37,9 @@ def step (st : DState) (line : String) : DState × String :=
     let (m, out) := OciModel.Driver.Mem.drive st.mem rest
     ({ st with mem := m }, out)
   | "srv" :: _ => (st, "skip")
+  | "auth" :: rest =>
+    let (a, out) := OciModel.Driver.Auth.drive st.auth rest
+    ({ st with auth := a }, out)
   | "uni" :: rest =>
     let (u, out) := OciModel.Driver.Unify.drive st.uni rest
     ({ st with uni := u }, out)
